@@ -284,6 +284,9 @@ func streamEngine(seed uint64, n int, driver, corpus, dump, variant string) (*Su
 	if variant == "api" || variant == "" {
 		structInputProbe(sum)
 	}
+	if variant == "catch" || variant == "" {
+		ctxLeakProbe(sum)
+	}
 	models, err := runDriver(driver, lines)
 	if err != nil {
 		return nil, err
